@@ -76,6 +76,23 @@ def run(chk: Check, drv: Driver):
         if not pr.generate():
             continue
         prepared.append(pr)
+    # hypotheses of `scoped_eq_flat` (Props/C06Scope.lean) on EVERY emitted kernel: `scopeOK` (block-scoped C
+    # declarations and the hoisted function-level slots of the LLVM back end cannot be told apart: every use is
+    # in scope and no variable is read after an inner declaration of the same name clobbered its slot) and
+    # `hoistConsistent` (one type per name). With the theorem: for every input, fuel and state the scoped (C)
+    # and the flat (LLVM) reading of the kernel give the same outcome.
+    sc = drv.batch(["CERT scope " + sx(export(pr.module)) for pr in prepared])
+    for pr, rep in zip(prepared, sc):
+        if not isinstance(rep, list) or not all(isinstance(x, list) and len(x) == 2 for x in rep):
+            chk.unproved_obligation("correspondence:ir-reader", "CERT scope failed", pr.case())
+            continue
+        for scope_ok, hoist_ok in rep:
+            chk.count("kernel_fn_scopeOK_" + str(scope_ok))
+            if scope_ok != "true" or hoist_ok != "true":
+                chk.unproved_obligation("theorem-hypothesis:scoped_eq_flat(scopeOK, hoistConsistent)",
+                                        "an emitted kernel uses a variable outside its C scope, reads a variable after an inner declaration "
+                                        "of the same name, or declares one name with two types: block-scoped C and hoisted LLVM slots may differ",
+                                        pr.case(scopeOK=scope_ok, hoistConsistent=hoist_ok))
     if quick:
         # keep the F10-shaped ones and a sample of the rest
         special = [p for p in prepared if right_nested_float_sum(p.assignment) or any(len(repr(v).replace(".", "").lstrip("0")) >= 16 for v in _float_literals(p.assignment))]
